@@ -185,11 +185,14 @@ CutAmb(s) == IF s = <<>> THEN <<>>
 Allowed(p) == CutAmb(RFCSeq(p))
 
 \* ------------------------------------------------- connection-level machine
-CONSTANT Pipelines
-VARIABLES pl, pos, dispatched, closed, resp
-vars == <<pl, pos, dispatched, closed, resp>>
+\* The pipeline a behaviour is about is identified by an index (so that the state stays
+\* small); PL(id) is the pipeline itself, a sequence of messages.
+CONSTANTS PipelineIds, PL(_)
+VARIABLES pid, pos, dispatched, closed, resp
+vars == <<pid, pos, dispatched, closed, resp>>
+pl == PL(pid)
 
-Init == /\ pl \in Pipelines /\ pos = <<1, 0>> /\ dispatched = <<>>
+Init == /\ pid \in PipelineIds /\ pos = <<1, 0>> /\ dispatched = <<>>
         /\ closed = FALSE /\ resp = <<>>
 
 \* serve the next message with exactly its RFC framing, continue at its boundary;
@@ -202,14 +205,14 @@ ServeNext ==
        /\ pos' = u.nxt
        /\ closed' \in (IF u.entry.amb THEN {TRUE} ELSE {TRUE, FALSE})
   /\ resp' = Append(resp, "ok")
-  /\ UNCHANGED pl
+  /\ UNCHANGED pid
 
 \* answer with an error and close (always permitted: 400, 501, 431, 417, policy)
 Reject == /\ ~closed /\ closed' = TRUE /\ resp' = Append(resp, "err")
-          /\ UNCHANGED <<pl, pos, dispatched>>
+          /\ UNCHANGED <<pid, pos, dispatched>>
 
 \* close without answering (EOF, idle peer)
-StopReading == /\ ~closed /\ closed' = TRUE /\ UNCHANGED <<pl, pos, dispatched, resp>>
+StopReading == /\ ~closed /\ closed' = TRUE /\ UNCHANGED <<pid, pos, dispatched, resp>>
 
 Next == ServeNext \/ Reject \/ StopReading
 Spec == Init /\ [][Next]_vars
